@@ -17,6 +17,16 @@ CHECKS = {
     note="Same assumptions as C09. Host-side batch-size validation in put_model and writes to Model fields (set_const) are outside the claim.",
     technique="symbolic execution of Warp kernel source (AST -> z3) + SMT index-equality queries per access",
     ref="§4 C10"),
+  "C11": dict(
+    text="Two-thread reduction: for each listed kernel two distinct symbolic threads of one launch are executed on the same symbolic state; the SMT query 'both access one cell, one with a non-atomic store (different values for store/store)' must be unsat, so threads interact only through commuting atomic operations and every serial order / interleaving gives the same result up to the slot permutation of atomic counters. sat models are replayed on the real compiled kernel (both serial orders, then per-thread confirmation of the conflicting accesses).",
+    note="Claimed for the kernels in c11_kernels.txt (race query unsat on the unchanged tree without further Model invariants; three tree-level kernels carry the level invariant as a precondition). Kernels whose race-freedom depends on Model structure not encoded here (sensor/actuator address disjointness, island maps), tile kernels and flex are outside. Bounds: 2 threads, loops <= 2 iterations, dims <= 6; float rounding of reordered sums is excluded by the property.",
+    technique="symbolic execution of two threads (AST -> z3) + SMT race query over all access pairs",
+    ref="§4 C11"),
+  "C13": dict(
+    text="The real io.reset_data is run natively with every Data array and the reset mask symbolic (dense cells, nworld=2, tiny models incl. na>nu, mocap, weld equality, userdata, delay buffers, sleep); each launched kernel is interpreted thread by thread. Per field and world the solver decides: selected => equals a fresh make_data; unselected => unchanged; contacts of unselected worlds unchanged, none appear; sat models are replayed on the real reset_data.",
+    note="Bounds: 2 worlds, 4 model/mask configurations, naconmax=4, njmax=4. Pre-state arbitrary except 0<=nacon<=naconmax and listed contacts' worldid in range. Sleep-derived arrays recomputed by update_sleep are excluded from 'unchanged'. Three known findings recorded (nacon zeroed, phantom contacts, history not reset). Subsequent-trajectory equality follows from C12 and is not re-derived here.",
+    technique="symbolic execution of the real host function with interpreted kernel launches (dense memory) + SMT equality queries per field",
+    ref="§4 C13"),
   "C16": dict(
     text="For every non-flex constraint-row builder (dense/sparse x newton/cg) one generic thread is executed symbolically with capacities, counters, tid and all array contents symbolic: rows this thread allocated that fit njmax / njmax_nnz are completely written (every efc field, dense and sparse Jacobian), written values do not depend on the capacity (relational query), and _next_time sets each overflow bit iff its condition. Unsat = holds for all values within the bounds; sat models are replayed on the real compiled kernel.",
     note="Bounds: loop trip counts <= 3 (nv columns, dof-ancestor walks), array dims <= 6 in replays. Assumes own accesses in bounds; floats abstracted. The njmax_nnz budget is a recorded known finding (two entries in known_findings.txt). Contacts / broadphase / nvmax capacities: see level_note of C17 and evidence.",
